@@ -147,7 +147,10 @@ def irft2(data, delta_f):
     Returns:
         ndarray: Scaled data in real space
     """
-    N = data.shape[-2]
+    # length of the last axis of the real array, as in irft, ift2 and the
+    # forward transforms (the half spectrum along it has N/2+1 samples); the
+    # second-to-last axis has its own length for a rectangular frame
+    N = 2 * (data.shape[-1] - 1)
     DATA = numpy.fft.fftshift(
             numpy.fft.irfft2(
                     numpy.fft.ifftshift(data, axes=(-1,-2)), 
